@@ -43,6 +43,7 @@ import uuid
 
 from edb import errors
 from edb.common import parsing
+from edb.common.ast import visitor as ast_visitor
 
 from edb.edgeql import qltypes
 
@@ -937,6 +938,21 @@ def _is_ptr_or_self_ref(
         return False
 
 
+def _refers_to_set(ir: irast.Set, result_set: irast.Set) -> bool:
+    # Does *ir* depend on (a path from) *result_set*?  A comparison with
+    # such a value, e.g. `.name = .nickname`, does not pin the compared
+    # pointer to a single value across the objects being filtered.
+    return (
+        ir.path_id.startswith(result_set.path_id)
+        or bool(ast_visitor.find_children(
+            ir,
+            irast.Set,
+            lambda s: s.path_id.startswith(result_set.path_id),
+            terminate_early=True,
+        ))
+    )
+
+
 def extract_filters(
     result_set: irast.Set,
     filter_set: irast.Set,
@@ -970,7 +986,7 @@ def extract_filters(
 
                 if infer_cardinality(
                     right, scope_tree=scope_tree, ctx=ctx,
-                ).is_single():
+                ).is_single() and not _refers_to_set(right, result_set):
                     pointers = []
                     left_stype = env.set_types[left]
                     if left_stype == result_stype:
